@@ -278,13 +278,13 @@ type c16Watch struct {
 }
 
 type c16Event struct {
-	typ       string
-	key, val  string
-	mod       int64
-	prevVal   string
-	prevMod   int64
-	hasPrev   bool
-	seq       int
+	typ      string
+	key, val string
+	mod      int64
+	prevVal  string
+	prevMod  int64
+	hasPrev  bool
+	seq      int
 }
 
 func c16Custom(t *testing.T, sc *world.Scenario, out *Outcome) {
